@@ -57,13 +57,14 @@ type cell struct {
 }
 
 type interp struct {
-	fset    *token.FileSet
-	status  string            // concrete prior status
-	param   string            // concrete `status` parameter
-	stmts   map[string]string // prepared statement variable -> SQL text
-	c       *cell
-	done    bool
-	unknown []string
+	fset      *token.FileSet
+	status    string            // concrete prior status
+	param     string            // concrete `status` parameter
+	paramName string            // name of the Go parameter of a status type
+	stmts     map[string]string // prepared statement variable -> SQL text
+	c         *cell
+	done      bool
+	unknown   []string
 }
 
 func constStatus(e ast.Expr) (string, bool) {
@@ -87,11 +88,13 @@ func (in *interp) statusExpr(e ast.Expr) (string, bool) {
 	}
 	switch x := e.(type) {
 	case *ast.SelectorExpr:
-		if id, ok := x.X.(*ast.Ident); ok && id.Name == "state" && x.Sel.Name == "Status" {
+		// <row variable>.Status: the prior status of the row being processed (whatever the local is called;
+		// package-qualified constants were handled by constStatus above)
+		if _, ok := x.X.(*ast.Ident); ok && x.Sel.Name == "Status" {
 			return in.status, true
 		}
 	case *ast.Ident:
-		if x.Name == "status" && in.param != "" {
+		if in.param != "" && (x.Name == in.paramName || (in.paramName == "" && x.Name == "status")) {
 			return in.param, true
 		}
 	}
@@ -322,6 +325,46 @@ func preparedStmts(fn *ast.FuncDecl) map[string]string {
 	return out
 }
 
+// statusParamName: the parameter of the function whose type is a contract status type
+func statusParamName(fd *ast.FuncDecl) string {
+	if fd.Type.Params == nil {
+		return ""
+	}
+	for _, f := range fd.Type.Params.List {
+		tn := ""
+		switch t := f.Type.(type) {
+		case *ast.SelectorExpr:
+			tn = t.Sel.Name
+		case *ast.Ident:
+			tn = t.Name
+		}
+		if strings.HasSuffix(tn, "ContractStatus") && len(f.Names) > 0 {
+			return f.Names[0].Name
+		}
+	}
+	return ""
+}
+
+// assignedFrom: the first variable assigned from a call of the function `callee` inside fn
+func assignedFrom(fn *ast.FuncDecl, callee string) string {
+	name := ""
+	ast.Inspect(fn.Body, func(n ast.Node) bool {
+		as, ok := n.(*ast.AssignStmt)
+		if !ok || name != "" || len(as.Rhs) != 1 || len(as.Lhs) < 1 {
+			return true
+		}
+		if c, ok := as.Rhs[0].(*ast.CallExpr); ok {
+			if id, ok := c.Fun.(*ast.Ident); ok && id.Name == callee {
+				if l, ok := as.Lhs[0].(*ast.Ident); ok {
+					name = l.Name
+				}
+			}
+		}
+		return true
+	})
+	return name
+}
+
 func loopBody(fn *ast.FuncDecl, rangeOver string) *ast.BlockStmt {
 	var body *ast.BlockStmt
 	ast.Inspect(fn.Body, func(n ast.Node) bool {
@@ -399,7 +442,7 @@ func main() {
 		body := loopBody(fd, "")
 		pos := fset.Position(fd.Pos()).String()
 		for _, st := range statuses {
-			in := &interp{fset: fset, status: st, param: sp.param, stmts: preparedStmts(fd), c: &cell{kind: "error"}}
+			in := &interp{fset: fset, status: st, param: sp.param, paramName: statusParamName(fd), stmts: preparedStmts(fd), c: &cell{kind: "error"}}
 			if body != nil {
 				in.block(body)
 			}
@@ -419,6 +462,10 @@ func main() {
 	// RejectContracts: two loops (v1 over `rejected`, v2 over `rejectedV2`)
 	if fd := funcs["RejectContracts"]; fd != nil {
 		for _, lv := range [][2]string{{"v1", "rejected"}, {"v2", "rejectedV2"}} {
+			// the id lists come from rejectContracts / rejectV2Contracts, whatever the locals are called
+			if n := assignedFrom(fd, map[string]string{"v1": "rejectContracts", "v2": "rejectV2Contracts"}[lv[0]]); n != "" {
+				lv[1] = n
+			}
 			body := loopBody(fd, lv[1])
 			for _, st := range statuses {
 				in := &interp{fset: fset, status: st, stmts: preparedStmts(fd), c: &cell{kind: "error"}}
